@@ -11,12 +11,20 @@ import (
 var ENotImpl error = p9p.MessageRerror{Ename: "not implemented"}
 var noHandle FileHandle = FileHandle{Path:"/", ent:nil, sess:nil}
 
+// info returns a consistent copy of the metadata (Write and WStat
+// change it concurrently from other sessions).
+func (f *FileEnt) info() p9p.Dir {
+	f.Lock()
+	defer f.Unlock()
+	return f.Info
+}
+
 func (f *FileEnt) IsDir() bool {
-	return f.Info.Mode&p9p.DMDIR > 0
+	return f.info().Mode&p9p.DMDIR > 0
 }
 
 func (ref *FileEnt) Qid() p9p.Qid {
-	return ref.Info.Qid
+	return ref.info().Qid
 }
 func (h FileHandle) Qid() p9p.Qid {
 	return h.ent.Qid()
@@ -37,24 +45,24 @@ func (d *dirList) Next(ctx context.Context) ([]p9p.Dir, error) {
 
 func (ref *FileEnt) OpenDir(ctx context.Context,
 							dotdot p9p.Dir) (p9p.ReadNext, error) {
-	ref.Lock()
-	defer ref.Unlock()
 	if !ref.IsDir() {
 		return nil, p9p.MessageRerror{Ename: "not a directory"}
 	}
+	ref.Lock()
+	defer ref.Unlock()
 
 	dirs := []p9p.Dir{dotdot}
 	for _, file := range ref.children {
-		dirs = append(dirs, file.Info)
+		dirs = append(dirs, file.info())
 	}
 	return (&dirList{dirs, false}).Next, nil
 }
 func (h FileHandle) OpenDir(ctx context.Context) (p9p.ReadNext, error) {
 	var dotdot p9p.Dir
 	if len(h.parents) == 0 {
-		dotdot = withName("..", h.ent.Info)
+		dotdot = withName("..", h.ent.info())
 	} else {
-		dotdot = withName("..", h.parents[len(h.parents)-1].Info)
+		dotdot = withName("..", h.parents[len(h.parents)-1].info())
 	}
 
 	return h.ent.OpenDir(ctx, dotdot)
@@ -99,7 +107,10 @@ func (ref *FileEnt) Walk(names ...string) []*FileEnt {
 
 	for i = 0; i < len(names); i++ {
 		var found bool
-		ref, found = ref.children[names[i]]
+		ref.Lock()
+		next, found := ref.children[names[i]]
+		ref.Unlock()
+		ref = next
 		if !found {
 			break
 		}
@@ -201,7 +212,7 @@ func (h FileHandle) Walk(ctx context.Context, names ...string) ([]p9p.Qid, p9p.D
 
 	qids = make([]p9p.Qid, len(ans))
 	for i, a := range ans {
-		qids[i] = a.Info.Qid
+		qids[i] = a.Qid()
 	}
 
 	return qids, rh, nil
@@ -241,13 +252,15 @@ func (h FileHandle) createImpl(fname string, mode uint32) (FileHandle, error) {
 }
 
 func (ref *FileEnt) Stat(ctx context.Context) (p9p.Dir, error) {
-	return ref.Info, nil
+	return ref.info(), nil
 }
 func (h FileHandle) Stat(ctx context.Context) (p9p.Dir, error) {
 	return h.ent.Stat(ctx)
 }
 
 func (ref *FileEnt) WStat(ctx context.Context, dir p9p.Dir) error {
+	ref.Lock()
+	defer ref.Unlock()
 	if dir.Mode != ^uint32(0) {
 		ref.Info.Mode = dir.Mode
 	}
